@@ -1,6 +1,7 @@
 import RasnModel.IR.Src
 import RasnModel.Gen.Struct
 import RasnModel.Spec.Struct
+import RasnModel.Spec.Recursion
 /- line-protocol handler shared by C02 / C03 / C05: constructed types -/
 namespace Driver.Struct
 open Sexp IR Gen.Struct
@@ -35,7 +36,7 @@ def diffItems (model obs : List ItemF) : Option String :=
     | some o => some s!"unexpected item {o.name}"
     | none => if model.length != obs.length then some "duplicate items" else none
 
-def sanitize (s : String) : String := s.map fun c => if c == ' ' then '_' else c
+def sanitize (s : String) : String := s.map fun c => if c == ' ' || c == '\n' || c == '\r' then '_' else c
 
 open Spec.Struct in
 /-- C05 verdict: extensibility facts of every expected item -/
@@ -111,6 +112,17 @@ def handle : List Sexp → String
         | some d => "model=differ:" ++ sanitize d
       s!"{m} c02={verdict (checkC02 spec obs)} c05={verdict (checkC05 spec obs)} c03={verdict (checkC03 (titleS name) env spec model obs)}"
     | _, _, _, _, _, _, _ => "bad-request"
+  | _ => "bad-request"
+
+/-- `recgraph ( observed items of a whole module )` ↦ `acyclic` | `cycle:<names>` -/
+def handleRec : List Sexp → String
+  | [.list obs] =>
+    match obs.mapM parseItemF with
+    | some obs =>
+      match Spec.Rec.cyclic obs with
+      | [] => "acyclic"
+      | l => "cycle:" ++ ",".intercalate l
+    | none => "bad-request"
   | _ => "bad-request"
 
 end Driver.Struct
